@@ -48,6 +48,11 @@ def material(rng, kind):
             m["dye"] = [((r * 37) % 2048) << 5 | (1 << (r % 5)) | (rng.getrandbits(5) if r > 5 else 0) for r in range(16)]
         else:
             m["dye"] = [((r * 61) % 2048) << 16 | (r % 4) << 27 | (1 << (r % 12)) | (rng.getrandbits(12) if r > 12 else 0) for r in range(32)]
+    if not kind and rng.random() < 0.6:
+        # a material without tables whose additional data is shorter (or longer) than the four bytes of a flag word
+        m["addl_size"] = rng.choice([0, 1, 2, 3, 8])
+        n_fill = 4 - m["addl_size"] if m["addl_size"] < 4 else m["addl_size"] - 4
+        m["addl_fill"] = [rng.choice([0xFF, 0x04, 0x08, 0x0C, 0x5C, rng.randrange(1, 256)]) for _ in range(n_fill)]
     m["keys"] = [(rng.getrandbits(32), rng.getrandbits(32)) for _ in range(rng.randint(0, 4))]
     m["constants"] = [(rng.getrandbits(32), [rfloat(rng) for _ in range(rng.randint(1, 4))]) for _ in range(rng.randint(0, 4))]
     nc = len(m["constants"])
